@@ -7,6 +7,8 @@ package main
 
 import (
 	"fmt"
+	"go/types"
+	"sort"
 	"strings"
 
 	"golang.org/x/tools/go/ssa"
@@ -53,6 +55,15 @@ func buildersStore(c *Ctx, pkg string) {
 			}
 			if obj == nil {
 				continue
+			}
+			// a builder method changes nothing but the fields it is the anchor of (and the ones it documents to clear)
+			if isMethod {
+				for _, ch := range changedFields(ev, p, obj) {
+					if !builderMayChange(r.fn, ch) {
+						ok = false
+						c.Fail(r.fn+"#"+r.canonical, c.P.FuncPos(fn), fmt.Sprintf("%s also changes the configuration field %s: a builder method must only set what it documents (here it would silently drop configuration made earlier, e.g. a delay function installed by failsafehttp.RetryPolicyBuilder)", fn.Name(), ch), pathTrace(ev, p))
+					}
+				}
 			}
 			got := ev.LoadField(p.State, obj, r.canonical)
 			if got == nil {
@@ -200,4 +211,66 @@ func delegatingBuilders(c *Ctx, pkg string) {
 			c.Ok(w[0], c.P.FuncPos(fn), "≡ "+w[1]+"(…).Build()")
 		}
 	}
+}
+
+// changedFields lists the fields of the builder object (and of the Base*Policy objects it embeds by pointer)
+// whose value at the end of path p differs from the initial one.
+func changedFields(ev *Evaluator, p *Path, obj *T) []string {
+	var out []string
+	s0 := ev.NewState()
+	var walk func(cur0, cur1 *T, depth int)
+	walk = func(cur0, cur1 *T, depth int) {
+		n := namedOfPtr(cur0.Typ)
+		if n == nil {
+			return
+		}
+		st, ok := n.Underlying().(*types.Struct)
+		if !ok {
+			return
+		}
+		for i := 0; i < st.NumFields(); i++ {
+			f := st.Field(i)
+			a := ev.load(s0, ev.faddr(cur0, n, i), f.Type())
+			b := ev.load(p.State, ev.faddr(cur1, n, i), f.Type())
+			if f.Embedded() && depth == 0 {
+				if _, isPtr := f.Type().Underlying().(*types.Pointer); isPtr && a == b {
+					a.Typ = f.Type()
+					walk(a, b, depth+1)
+					continue
+				}
+			}
+			if a != b {
+				out = append(out, canonicalField(n.Obj().Pkg().Name()+"."+n.Obj().Name()+"."+f.Name()))
+			}
+		}
+	}
+	walk(obj, obj, 0)
+	sort.Strings(out)
+	return out
+}
+
+// builderMayChange: fields a builder method may change: the ones anchored at it in the role table plus the
+// documented clears.
+func builderMayChange(fn, field string) bool {
+	for _, r := range roleTable {
+		if r.fn == fn && r.canonical == field {
+			return true
+		}
+	}
+	extra := map[string][]string{
+		"retrypolicy.(*config).WithBackoffFactor":            {"Delay", "delayMin", "delayMax"},
+		"retrypolicy.(*config).WithRandomDelay":              {"Delay", "maxDelay"},
+		"circuitbreaker.(*config).WithFailureRateThreshold":  {},
+		"circuitbreaker.(*config).WithFailureThresholdRatio": {},
+		"circuitbreaker.(*config).WithSuccessThresholdRatio": {},
+		"policy.(*BaseFailurePolicy).HandleIf":               {"errorsChecked"},
+		"policy.(*BaseAbortablePolicy).AbortOnResult":        {},
+		"cachepolicy.(*config).CacheIf":                      {},
+	}
+	for _, f := range extra[fn] {
+		if f == field {
+			return true
+		}
+	}
+	return false
 }
